@@ -12,7 +12,7 @@ import (
 
 func init() {
 	register(&Property{
-		ID: "C05",
+		ID:          "C05",
 		Explanation: "Append-only discipline and trailer handling decided from the source: (drive-ownership) the drive path held by the tape manager flows only into pkg/tape's open functions, whose path parameter reaches nothing but os.Stat/os.Open/os.OpenFile; every regular open for writing carries O_APPEND and truncation/rewinding is control-dependent on the overwrite parameter, which is constant false at every constructor call except the two whitelisted commands; the writer handle handed to operations is consumed only as NewTapeWriter's destination and the reader handle's static type has no mutating method and is never type-asserted; (lookups-before-append) in Delete and Move the entry lookup succeeds before any WriteHeader and no index lookup follows a write, and every header is converted, signed and encrypted (errors checked) before it is written; (trailer) on every path to cleanup(&dirty) a written header has been followed by dirty = true, the cleanup closure closes the tar writer exactly when dirty and pads/flushes non-regular drives; (pax) headers built by the archive/update paths and both wrappers carry Format = tar.FormatPAX before they are written.",
 		NotDecided:  "That an independent tar reader iterates the result, member data equality, headers loaded from the index in Delete/Move carrying the PAX format (assumed from what was stored), 512-byte alignment after a torn write.",
 		Assumptions: []string{"os.O_APPEND makes every write land at end of file", "archive/tar writes well-formed members and a two-block trailer on Close"},
